@@ -544,9 +544,10 @@ func (vars algorithmCreateTermDefinition) Call() error {
 
 			// [spec // 4.2.2 // 14.2.5] If *term* contains neither a colon (:) nor a slash (/), simple term is true, and if the IRI mapping of definition is either an IRI ending with a gen-delim character, or a blank node identifier, set the prefix flag in definition to true.
 
-			if hasColonOrSlash || simpleTerm {
+			if vars.activeContext._processor.processingMode == ProcessingMode_JSON_LD_1_0 {
+				// json-ld-1.0 processing lets any term be used as a prefix (toRdf test e014)
 				definition.Prefix = true
-			} else {
+			} else if !hasColonOrSlash && simpleTerm {
 				switch t := definition.IRI.(type) {
 				case ExpandedIRIasIRI:
 					if len(t) > 0 {
@@ -555,8 +556,6 @@ func (vars algorithmCreateTermDefinition) Call() error {
 							definition.Prefix = true
 						}
 					}
-
-					definition.Prefix = true
 				case ExpandedIRIasBlankNode:
 					definition.Prefix = true
 				}
